@@ -124,6 +124,9 @@ func runC13(tier string, seed uint64) {
 		s := newSess("c13", "mem", SessOpts{})
 		s.MkBucket(b)
 		keys := []string{"k", "j", "p/q", "p/r", "z"}[:2+rng.Intn(4)]
+		if i%4 == 1 {
+			keys = append(keys, "m"+strings.Repeat("L", 1023)) // a key of the maximum length: it is a legal key marker too
+		}
 		mode := rng.Intn(6) // 0: never versioned, 1: enabled from the start, 2,3: mixed, 4: enabled, suspended before listing, 5: mixed, suspended before listing
 		if mode == 1 || mode == 4 {
 			s.SetVersioning(b, true)
